@@ -139,6 +139,7 @@ type Chain struct {
 	ProbeDenoms []string
 	ProbeAssets []string
 	Registry bool // project module parameters (scene option)
+	Listed   []string // denoms the scene (standing for genesis / governance) registered bank metadata for: what the burner may burn
 	composite map[int]bool // transactions of the block being processed that carry several observed messages
 	msgSeen   map[int]int
 	Mempool  bool // C19: behave like a node with a mempool and an RPC: CheckTx and Simulate every transaction before the block
